@@ -221,3 +221,106 @@ class _des(Contract):
 
     loops = {0: dict(inv=lambda c: _des._inv0(c), decreases=lambda c: c.row_len.t - c.i.t),
              1: dict(inv=lambda c: _des._inv1(c), decreases=lambda c: c.row_len.t - c.i.t)}
+
+
+# ---- CSVStorage's one-line forwarders to the codec (storages.py) ---------------------------------
+from .io_model import CSV as _CSV  # the CSVStorage class model (its file-system ghost fields are irrelevant here and framed out)
+_CSQ = "tinyflux.storages.CSVStorage."
+KW = TDict(TString, TBool)
+_prev_point_ctor = Exec.global_calls.get("tinyflux.point.Point")
+
+
+def _new_cpoint(ex, node, st):
+    """Point() in string mode: a fresh point object (the decoder overwrites all four attributes)"""
+    if node.args or node.keywords:
+        raise Unsupported("Point(...) with arguments in string mode", node)
+    return fresh(CP, "new_point", ex.classes_fields())
+
+
+Exec.global_calls["tinyflux.point.Point"] = lambda ex, node, st: _new_cpoint(ex, node, st) if ex.string_mode else (_prev_point_ctor(ex, node, st) if _prev_point_ctor else ex.construct("tinyflux.point.Point", node, st))
+
+
+@contract(_CSQ + "_serialize_point")
+class _csv_serialize_point(Contract):
+    """C05: the stored item of a point is the encoder's row, with the compact prefixes exactly when the keyword asks for them"""
+    params = dict(self=_CSV, point=CP, args=TU("Opaque"), kwargs=KW)
+    ret = Row
+    string_mode = True
+    modifies = ()
+    theories = ("codec_text", "codec_cells")
+    witness_sig = _ser.witness_sig
+
+    @staticmethod
+    def requires(c):
+        return stored_point(c.point)
+
+    class _V:
+        def __init__(self, c):
+            self._c = c
+            self.self = c.point
+            kw = (c.old if getattr(c, "old", None) is not None else c).kwargs.t
+            key = z3.StringVal("compact_key_prefixes")
+            self.compact_key_prefixes = Val(TBool, z3.And(z3.Select(d_dom(kw), key), z3.Select(d_val(kw), key)))
+
+        def __getattr__(self, n):
+            return getattr(self._c, n)
+
+    @staticmethod
+    def witness(c):
+        return c.ghost.get("wit:" + _PT + "_serialize_to_list")
+
+    @staticmethod
+    def ensures(c):
+        return _ser.ensures(_csv_serialize_point._V(c))
+
+
+@contract(_CSQ + "_deserialize_storage_item")
+class _csv_deserialize_item(Contract):
+    """C05: reading an item back is the decoder applied to the row"""
+    params = dict(self=_CSV, row=Row, _ghost_nt=TInt)
+    ret = CP
+    string_mode = True
+    modifies = ()
+    theories = ("codec_folds", "codec_cells")
+
+    @staticmethod
+    def requires(c):
+        return wf_row(c.row.t, c._ghost_nt.t)
+
+    @staticmethod
+    def ensures(c):
+        return _des.decoded(c, c.result)
+
+
+@contract(_CSQ + "_deserialize_measurement")
+class _csv_deserialize_measurement(Contract):
+    """the measurement cell of the row (cell 1): what the decoder reads as the measurement"""
+    params = dict(self=_CSV, row=Row)
+    ret = TString
+    string_mode = True
+    modifies = ()
+
+    @staticmethod
+    def requires(c):
+        return [("has_cells", l_len(c.row.t) >= 2)]
+
+    @staticmethod
+    def ensures(c):
+        return [("measurement_cell", c.result.t == l_at(c.row.t, 1))]
+
+
+@contract(_CSQ + "_deserialize_timestamp")
+class _csv_deserialize_timestamp(Contract):
+    """the time cell of the row (cell 0) parsed as a naive datetime: marking it UTC gives the decoder's time"""
+    params = dict(self=_CSV, row=Row)
+    ret = NDt
+    string_mode = True
+    modifies = ()
+
+    @staticmethod
+    def requires(c):
+        return [("has_cells", l_len(c.row.t) >= 1), ("time_cell_parses", iso_ok(l_at(c.row.t, 0)))]
+
+    @staticmethod
+    def ensures(c):
+        return [("time_cell", c.result.t == iso_parse(l_at(c.row.t, 0)))]
